@@ -8,9 +8,12 @@ import (
 	"bytes"
 	"io"
 
+	"reduction.dev/reduction/dkv/bloom"
 	"reduction.dev/reduction/dkv/kv"
 	"reduction.dev/reduction/dkv/storage"
 )
+
+var _ *bloom.Filter
 
 var _ io.Reader
 var _ storage.File
@@ -146,6 +149,37 @@ var ghostRecNext func(d []byte, o int) int
 //@        forall(0, len(t.searchIndex.offsets), func(ii_ int) bool { return forall(0, ii_, func(jj_ int) bool { return t.searchIndex.offsets[jj_] < t.searchIndex.offsets[ii_] }) })
 //@ define tblData(t) := storage.ghostCursorData(t.file, uint64(t.entriesSize))
 //@ define tblWF(t) := recsWF(tblData(t)) && idxWF(t, tblData(t))
+
+// writeEntry (the writer side of the same format). F = the file as an io.Writer (ghost stream =
+// the bytes written so far; the entries region is written first, so t.size == len(stream)).
+// One call appends exactly one record that decodes to the entry: key, sequence number,
+// tombstone flag, and the value unless it is a tombstone - so the next record starts exactly
+// where recEnd says, which is where the reader goes. The record's start offset is handed to
+// the sparse index BEFORE the record is written, the key is added to the bloom filter, the
+// table's size and key/sequence range follow the entry.
+//@ define wrF(t) := io.Writer(t.file)
+// recSeqDigits: the 8 bytes at p are the little-endian base-256 digits of v (fields.leRoundTrip64:
+// they recompose to v, which is what ReadUint64 returns).
+//@ define recSeqDigits(d, p, v) := uint64(d[p]) == v%256 && uint64(d[p+1]) == (v/256)%256 && uint64(d[p+2]) == (v/65536)%256 && uint64(d[p+3]) == (v/16777216)%256 &&
+//@        uint64(d[p+4]) == (v/4294967296)%256 && uint64(d[p+5]) == (v/1099511627776)%256 && uint64(d[p+6]) == (v/281474976710656)%256 && uint64(d[p+7]) == (v/72057594037927936)%256
+//@ func writeEntry
+//@   property C17
+//@   nosafety
+//@   requires t != nil && entry != nil && t.searchIndex != nil && t.filter != nil && bloom.ghostShape(t.filter)
+//@   requires t.size >= 0 && t.size < 4294967296 && int(t.size) == len(wrF(t).stream) && t.searchIndex.itemsWritten >= 0
+//@   requires len(entry.Key()) < 4294967296 && len(entry.Value()) < 4294967296
+//@   modifies t.size, t.startKey, t.startSeqNum, t.endKey, t.endSeqNum, io.Writer.stream, SearchIndex.offsets, SearchIndex.itemsWritten, bloom.Filter.bitArray
+//@   ensures int(t.size) == len(wrF(t).stream) && forall(0, old(len(wrF(t).stream)), func(i int) bool { return wrF(t).stream[i] == old(wrF(t).stream)[i] })
+//@   ensures recKeyIs(wrF(t).stream, int(old(t.size)), entry.Key())
+//@   ensures recSeqDigits(wrF(t).stream, int(old(t.size))+4+len(entry.Key()), entry.SeqNum())
+//@   ensures ghostRecTomb(wrF(t).stream, int(old(t.size))) == entry.IsDelete()
+//@   ensures int(t.size) == recEnd(wrF(t).stream, int(old(t.size)))
+//@   ensures !entry.IsDelete() ==> ghostLE32(wrF(t).stream, ghostRecValAt(wrF(t).stream, int(old(t.size)))) == len(entry.Value()) &&
+//@           forall(0, len(entry.Value()), func(i int) bool { return wrF(t).stream[ghostRecValAt(wrF(t).stream, int(old(t.size)))+4+i] == entry.Value()[i] })
+//@   ensures t.searchIndex.itemsWritten == old(t.searchIndex.itemsWritten) + 1
+//@   ensures old(t.searchIndex.itemsWritten)%16 == 0 ==> len(t.searchIndex.offsets) == old(len(t.searchIndex.offsets)) + 1 && int64(t.searchIndex.offsets[old(len(t.searchIndex.offsets))]) == old(t.size)
+//@   ensures bloom.ghostHas(t.filter, entry.Key())
+//@   ensures same(t.endKey, entry.Key()) && t.endSeqNum == entry.SeqNum() && (old(t.size) == 0 ==> same(t.startKey, entry.Key()) && t.startSeqNum == entry.SeqNum())
 
 // The footer (bloom filter, sparse index) is loaded once; the entries region is not touched.
 //@ func Table.ensureMetadataLoaded
